@@ -109,6 +109,42 @@ fn main() {
             let r = p.run_one(util::run_seed(seed, &tag, idx), idx, thorough);
             say!("{:016x}", r.xdigest.unwrap_or(0));
         }
+        "buildtime" => {
+            // buildtime <E> <maxdepth> <n>: time build_sampler on random topologies
+            quiet_panics();
+            let e: u64 = args[2].parse().unwrap();
+            let depth: usize = args[3].parse().unwrap();
+            let n: u64 = args[4].parse().unwrap();
+            let mut rng = util::SplitMix::new(7);
+            ctx::install(usize::MAX, None, ctx::PreemptPlan::default());
+            let mut times = Vec::new();
+            let mut tries = 0;
+            while (times.len() as u64) < n && tries < 100000 {
+                tries += 1;
+                let cfg = workload::GraphGenCfg { max_v: 6, max_e: e, min_e: e, max_loops: 99, allow_disconnected: false };
+                let (edges, ext) = workload::random_topology(&mut rng, &cfg);
+                if workload::edge_bfs_rounds(&edges) > depth {
+                    continue;
+                }
+                let spec = sampler::GraphSpec {
+                    d: 3,
+                    edges: edges.iter().map(|&(a, b)| sampler::EdgeSpec { v: (a, b), massive: true, w: 2.0f64.to_bits() }).collect(),
+                    externals: ext,
+                    signature: vec![],
+                    name: String::new(),
+                };
+                let t0 = std::time::Instant::now();
+                let _ = sampler::build(&spec);
+                let t1 = t0.elapsed().as_secs_f64();
+                let t0 = std::time::Instant::now();
+                let _ = c05::model(&spec);
+                times.push((t1, t0.elapsed().as_secs_f64()));
+            }
+            let avg = times.iter().map(|t| t.0).sum::<f64>() / times.len() as f64;
+            let mx = times.iter().map(|t| t.0).fold(0.0, f64::max);
+            let avm = times.iter().map(|t| t.1).sum::<f64>() / times.len() as f64;
+            say!("E={} depth<={} n={} build avg {:.4}s max {:.4}s; model avg {:.4}s", e, depth, times.len(), avg, mx, avm);
+        }
         "replay" => {
             quiet_panics();
             let refs: Vec<&dyn Property> = ps.iter().map(|b| &**b).collect();
